@@ -94,11 +94,20 @@ def fixture_mod():
 
 def memo_verdict(model, mod, q, desc):
     """is the shared object a write was found on a content-keyed memo table (cijsa.memo)?  (verdict, info)"""
-    import re as _re
     from .. import memo
     f = mod.funcs.get(q)
-    if f is None:
+    c = _shared_container(model, mod, q, desc)
+    if f is None or c is None:
         return None, ""
+    return memo.analyse(mod, q, f, c[0], c[1])
+
+
+def _shared_container(model, mod, q, desc):
+    """(predicate recognising the container in an AST, its uses outside q) for a write description of module_state_writes / class_state_writes"""
+    import re as _re
+    f = mod.funcs.get(q)
+    if f is None:
+        return None
     m1 = _re.search(r"module-level object (\w+)", desc)
     m2 = _re.search(r"class-level mutable attribute (\w+)\.(\w+)", desc)
     if m1 and m1.group(1) in mod.globals:
@@ -117,8 +126,8 @@ def memo_verdict(model, mod, q, desc):
             if mod2 is not mod and any(isinstance(n, ast.Attribute) and n.attr == attr for n in ast.walk(mod2.tree)):
                 elsewhere.append(mn2)
     else:
-        return None, ""
-    return memo.analyse(mod, q, f, is_c, elsewhere)
+        return None
+    return is_c, elsewhere
 
 
 def r_module_state(ctx, model):
@@ -392,7 +401,19 @@ def r_ambient(ctx, model):
     hits = 0
     for mname, mod in live_modules(model):
         n += len(mod.funcs)
+        benign = {}
+        for q_, node_, desc_ in module_state_writes(model, mod) + class_state_writes(mod):
+            if memo_verdict(model, mod, q_, desc_)[0] == "benign":
+                benign.setdefault(q_, []).append(_shared_container(model, mod, q_, desc_)[0])
         for q, node, full in ambient_uses(mod):
+            if full == "id()" and q in benign:
+                # an address that only chooses the slot of a memo table whose entries are validated by content (R14.1) does not reach any result
+                f_ = mod.funcs[q]
+                slot_only = any((isinstance(x, ast.Subscript) and x.slice is node and any(p_(x.value) for p_ in benign[q])) or
+                                (isinstance(x, ast.Call) and isinstance(x.func, ast.Attribute) and x.func.attr == "get" and x.args and x.args[0] is node and any(p_(x.func.value) for p_ in benign[q]))
+                                for x in ast.walk(f_))
+                if slot_only:
+                    continue
             hits += 1
             setter = any(t in full for t in ("set_option", "reset_option", "pandas.options", "set_printoptions", "seterr", "simplefilter", "filterwarnings", "setlocale", "chdir", "umask",
                                              "setrecursionlimit", "rcParams", "matplotlib.use", "setcontext"))
